@@ -72,6 +72,8 @@ type Entry struct {
 	Normalise func(v any)                                // all documented lossy normalisations, in place
 	// MultiproofTxns returns the transaction sets that are encoded in multiproof form (nil otherwise).
 	MultiproofTxns func(v any) []MultiproofSet
+
+	postGen func(rng *rand.Rand, v any)
 }
 
 // MultiproofSet is one []V2Transaction encoded as a multiproof, with the path prefix of the slice inside the entry's value.
@@ -138,6 +140,9 @@ func genDefault(e *Entry, rng *rand.Rand, o *valgen.Opts) any {
 		v := e.New()
 		valgen.Fill(rng, reflect.ValueOf(v).Elem(), &oo)
 		FixDomain(rng, v)
+		if e.postGen != nil {
+			e.postGen(rng, v)
+		}
 		if e.Limit <= 0 || try > 12 || len(e.Encode(v)) <= e.Limit {
 			if try > 12 {
 				// give up on randomness: the zero value always fits
@@ -227,7 +232,12 @@ func gw[T any, PT interface {
 		return v, len(b) - r.Len(), err
 	}
 	e.Normalise = func(v any) { drop(v.(*T)) }
-	e.Notes = "fields of the other direction are not transmitted"
+	e.Notes = "fields of the other direction are not transmitted (the generator leaves them zero, except in 1 of 8 values)"
+	e.postGen = func(rng *rand.Rand, v any) {
+		if rng.IntN(8) != 0 {
+			drop(v.(*T))
+		}
+	}
 	for _, m := range mods {
 		m(&e)
 	}
